@@ -32,6 +32,15 @@ MISSED_AT_FIRST = {
     'C18-3': 'missed: rows always reached the emitter in time order; a fifth of the histories is now emitted out of order and judged by alignment',
     'C16-3': 'missed: merges only went into Composite({}); the receiving composite may now be composer-generated, and a composite generated afterwards must be pristine',
     'C15-3': 'missed: the declaring process was never a Step and glob children never held processes; both added to the generator',
+    'C06-4': 'missed: every shared node sat in a branch; the topology generator now also puts leaves directly under the root',
+    'C01-4': 'same change as C06-4, written independently for C01; missed by C01 (no process wired two ports to one node): a quarter of the ledger processes now have a second port on their accumulator\'s node',
+    'C02-4': 'missed: no call had an empty interval; the schedule generators of C01-C03 (and C12) now produce them - which uncovered the genuine defect D31 and the known finding F1',
+    'C04-4': 'caught by C07 and C10 at first, not by C04 (no structural updates there): the permutation class now has a process that adds glob children and writes a second branch port in one update, and a census process on the glob',
+    'C09-4': 'missed: every update object was used once; op kind delete_reissued hands the same _delete update in again (and the update-object comparison, harvested by C08, uncovered D32)',
+    'C13-4': 'missed: every workload process overrode calculate_timestep; timestep kind param (default calculate_timestep, the process changes parameters[timestep] itself) added to the schedule generators',
+    'C14-4': 'missed: the serialized tree was never looked at again after deserialize_value; oracle serialized_kept, and the emitter is read twice',
+    'C15-4': 'missed: initial_state() placement was only asserted for nodes with a single declaring variable; several variables of one process on one node now supply one value',
+    'C19-4': 'missed: one update() whose length is a multiple of the timestep; a third of the cases now make 2-4 update() calls that cut ticks short',
 }
 
 
